@@ -228,6 +228,29 @@ func ApplyTamper(wire []byte, spec *TamperSpec, c *TamperCtx) ([]byte, bool, err
 	if fd == nil {
 		return nil, false, fmt.Errorf("no field %s in %s", spec.Field, spec.Type)
 	}
+	// a point carried in two scalar fields (<name>_x, <name>_y) replaced by another valid point: its double
+	if spec.Kind == "pt2-double" {
+		if !strings.HasSuffix(spec.Field, "_x") || fd.IsList() {
+			return wire, false, nil
+		}
+		fy := r.Descriptor().Fields().ByName(protoreflect.Name(strings.TrimSuffix(spec.Field, "_x") + "_y"))
+		if fy == nil || fy.IsList() {
+			return wire, false, nil
+		}
+		var g Group = Secp
+		if c.EdCurve {
+			g = Ed
+		}
+		P := Pt{X: new(big.Int).SetBytes(r.Get(fd).Bytes()), Y: new(big.Int).SetBytes(r.Get(fy).Bytes())}
+		D := g.Add(P, P)
+		if D.X == nil || D.Y == nil || PtEq(D, P) {
+			return wire, false, nil
+		}
+		r.Set(fd, protoreflect.ValueOfBytes(D.X.Bytes()))
+		r.Set(fy, protoreflect.ValueOfBytes(D.Y.Bytes()))
+		nw, err := encodeAny(m)
+		return nw, err == nil, err
+	}
 	// modulus context: a Paillier / ring-Pedersen modulus carried in the same message
 	if c.ModN == nil {
 		for _, nm := range []string{"paillier_n", "n_tilde"} {
